@@ -70,6 +70,7 @@ func genC17(r *Rng, tier string) *c17W {
 	w := &c17W{Run: GenRunCfg(r, []int{1, 1, 10}), Restarted: r.Chance(50)}
 	nc := 2 + r.Intn(3)
 	schemaTheme := r.Chance(15) // sessions that mostly upload and read schemas
+	churnTheme := !schemaTheme && r.Chance(15)
 	if r.Chance(20) {
 		w.WriteErrAt = 1 + r.Intn(30)
 	}
@@ -85,6 +86,13 @@ func genC17(r *Rng, tier string) *c17W {
 			if schemaTheme && r.Chance(60) {
 				k = 91 + r.Intn(5)
 				g = "g1"
+			}
+			if churnTheme {
+				// everybody works on the graph that is dropped and created again
+				g = "g2"
+				if r.Chance(35) {
+					k = 52 + r.Intn(8)
+				}
 			}
 			switch {
 			case k < 22:
